@@ -50,7 +50,26 @@ func main() {
 	overlay := flag.String("overlay", "", "control mode: <abs file>=<replacement file>")
 	control := flag.Bool("control", false, "control mode: print non-ok obligations as JSON, write nothing")
 	list := flag.Bool("list", false, "list properties")
+	dump := flag.String("dump", "", "debug: dump the SSA of functions whose name contains this string (kernel module)")
 	flag.Parse()
+	if *dump != "" {
+		mod := "kernel"
+		if strings.HasPrefix(*dump, "kbuild:") {
+			mod = "kbuild"
+			*dump = strings.TrimPrefix(*dump, "kbuild:")
+		}
+		m, err := loadModule(mod, 1, nil)
+		if err != nil {
+			fmt.Fprintln(os.Stderr, err)
+			os.Exit(2)
+		}
+		for _, fn := range m.Funcs {
+			if strings.Contains(m.fnName(fn), *dump) {
+				fn.WriteTo(os.Stdout)
+			}
+		}
+		return
+	}
 	if *list {
 		ids := []string{}
 		for id := range registry {
